@@ -30,7 +30,7 @@ type state struct {
 }
 
 // reach enumerates the bounded reachable set: depth 0 = built segments of MIX x modes,
-// STORED-S, DV-S and the empty batch; depth 1 = every MERGE(k=2) output; depth 2 = every depth-1
+// STORED-S, DV-S, the empty batch and a family of document counts around 128 and 1024; depth 1 = every MERGE(k=2) output; depth 2 = every depth-1
 // state merged alone (no drops / first doc dropped / everything dropped), with itself, and with
 // each of three fixed partner segments in both orders. States are de-duplicated per worker by
 // their exact byte image (equal bytes => equal futures).
@@ -102,6 +102,57 @@ func reach(c *explore.Ctx, visit func(scope string, idx int64, st *state)) {
 		}
 		return !c.Expired()
 	})
+	// document counts around the format constants (128-document stored blocks, 1024-document
+	// doc-value chunks): built, and merged alone with and without one deletion (n and n-1 survivors)
+	{
+		sizes := []int{127, 128, 129, 255, 256, 257, 1024, 1025}
+		if c.Thorough() {
+			sizes = append(sizes, 1, 2, 64, 130, 384, 512, 1023, 1026, 2048, 2049)
+		}
+		for si, n := range sizes {
+			scope := "R0-SIZES"
+			if !c.MineIdx(scope, int64(si)) || c.Expired() {
+				continue
+			}
+			batch := make([]model.Doc, n)
+			for i := range batch {
+				batch[i] = model.Doc{gen.IDField("z", i), {N: "a", Len: 1, St: i%3 == 0, Val: []byte(fmt.Sprintf("v%d", i)), Terms: []model.Term{{T: "x", Freq: 1 + i%2}}}}
+				if i%4 == 0 {
+					batch[i] = append(batch[i], model.Field{N: "b", Len: 1, DV: true, Terms: []model.Term{{T: fmt.Sprintf("t%d", i%5), Freq: 1}}})
+				}
+			}
+			ls := model.Build(batch)
+			seg, err := build(batch, 1025)
+			if err != nil {
+				c.Eval()
+				c.Violate(scope, int64(si), sigOf(c.Prop, "build", "error: "+err.Error()), err.Error(), fmt.Sprint("n=", n))
+				continue
+			}
+			c.R.Transitions++
+			b, nn, err := persist(seg)
+			if err != nil {
+				c.Eval()
+				c.Violate(scope, int64(si), sigOf(c.Prop, "persist", "error: "+err.Error()), err.Error(), fmt.Sprint("n=", n))
+				continue
+			}
+			emit(scope, int64(si), &state{desc: fmt.Sprintf("built n=%d", n), bytes: b, n: nn, orig: seg, want: ls, mode: 1025})
+			for di, drop := range []*roaring.Bitmap{nil, bitmapOf(0)} {
+				var ds map[uint64]bool
+				if drop != nil {
+					ds = map[uint64]bool{0: true}
+				}
+				mb, _, mn, err := merge([]segment.Segment{seg}, []*roaring.Bitmap{drop}, 1025)
+				c.R.Transitions++
+				if err != nil {
+					c.Eval()
+					c.Violate(scope+"/m", int64(si*2+di), sigOf(c.Prop, "merge", "error: "+err.Error()), err.Error(), fmt.Sprint("n=", n))
+					continue
+				}
+				want, _ := model.Merge([]*model.LSeg{ls}, []map[uint64]bool{ds})
+				emit(scope+"/m", int64(si*2+di), &state{desc: fmt.Sprintf("merged n=%d drop-first=%v", n, drop != nil), bytes: mb, n: int64(mn), want: want, mode: 1025, depth: 1, merged: true})
+			}
+		}
+	}
 	// partners for depth 2
 	partners := [][]model.Doc{
 		{gen.MixDoc(2, "p", 0), gen.MixDoc(1, "p", 1)},
@@ -196,7 +247,7 @@ func mergeSweepNT(c *explore.Ctx, k, K, maxDocs int, cfgs []mergeCfg, check func
 func init() {
 	register(&explore.Prop{
 		ID: "C04", Level: levelMC, Explorer: "E1 + reachability over segment states",
-		Rule: "state space of segments reachable by New (MIX x modes, STORED-S, DV-S, empty batch) and by merge trees to depth 2 (every MERGE(k=2) output, then each output merged alone / with drops / with everything dropped / with itself / with three fixed partners in both orders); states de-duplicated per worker by exact byte image; each state is loaded from memory (exact-capacity copy) and from a file-backed io.ReaderAt and fully observed; " +
+		Rule: "state space of segments reachable by New (MIX x modes, STORED-S, DV-S, empty batch, document counts 127..129, 255..257, 1024, 1025 built and merged) and by merge trees to depth 2 (every MERGE(k=2) output, then each output merged alone / with drops / with everything dropped / with itself / with three fixed partners in both orders); states de-duplicated per worker by exact byte image; each state is loaded from memory (exact-capacity copy) and from a file-backed io.ReaderAt and fully observed; " +
 			"states = distinct byte images per worker, transitions = build/merge operations; non-trivial = every state (degenerate shapes counted separately in counters.degenerate_states)",
 		Assumptions: commonAssumptions, Budget: qBudget, Run: runC04,
 	})
